@@ -759,7 +759,7 @@ def oracle_world(w):
         if len(views) > 1:
             sig = classify_divergence(w, live)
             if sig == "divergence-unclassified":
-                knocked = [x["signature"] for x in fails if x["signature"] in ("rollback-before-authorisation", "rewrapped-commit-rollback", "retagged-commit-rollback")]
+                knocked = [x["signature"] for x in fails if x["signature"] in ("rollback-before-authorisation", "rewrapped-commit-rollback", "retagged-commit-rollback", "rollback-then-missing-proposal")]
                 sig = knocked[0] if knocked else sig
             facts["divergence"] = sig
             if sig != "fork-deeper-than-retention":
@@ -790,7 +790,7 @@ def oracle_world(w):
             facts["winner_tokens"] = win_tokens
             facts["winner_complete"] = cur is not None and cur == common
             if cur is None or cur != common:
-                knocked = [x["signature"] for x in fails if x["signature"] in ("rollback-before-authorisation", "rewrapped-commit-rollback", "retagged-commit-rollback")]
+                knocked = [x["signature"] for x in fails if x["signature"] in ("rollback-before-authorisation", "rewrapped-commit-rollback", "retagged-commit-rollback", "rollback-then-missing-proposal")]
                 if not knocked and any(w.events.get(n, {}).get("kind") == "commit" and cc in live for (cc, n) in gnf_first):
                     knocked = ["h-rotation-in-flight"]      # a sibling was never compared: it was not routed after a rotation
                 fail("C01", knocked[0] if knocked else "converged-not-mip03", len(w.trace) - 1, f"members agree on T{common} but the MIP-03 chain {chain} ends in T{cur}")
@@ -844,6 +844,8 @@ def oracle_world(w):
                         sig = "rewrapped-commit-rollback"   # correctly tagged, but the client was knocked back by a re-wrapped commit
                     elif any(x["signature"] == "rollback-before-authorisation" for x in fails):
                         sig = "rollback-before-authorisation"   # … or by a forged commit that was compared (and rolled back for) before it was refused
+                    elif any(x["signature"] == "rollback-then-missing-proposal" for x in fails):
+                        sig = "rollback-then-missing-proposal"  # … or by a better commit whose referenced proposals this client lacked
                     else:
                         sig = "winning-message-invalidated"
                     fail("C02", sig, len(w.trace) - 1, f"message {e['mid']} (event {n}, winning branch) is stored at c{c} in state {rows[0]['state']} (epoch tag {rows[0]['epoch']}, record {rec})")
